@@ -715,6 +715,7 @@ def _get_simple_equalities(lits: list[AST]) -> list[AST]:
             and lit.atom.ast_type == ASTType.Comparison
             and lit.atom.term.ast_type == ASTType.Variable
             and lit.atom.guards[0].term.ast_type == ASTType.Variable
+            and "_" not in (lit.atom.term.name, lit.atom.guards[0].term.name)  # every _ is a different variable
         ):
             if (lit.sign == Sign.NoSign and lit.atom.guards[0].comparison == ComparisonOperator.Equal) or (
                 lit.sign == Sign.Negation and lit.atom.guards[0].comparison == ComparisonOperator.NotEqual
